@@ -456,6 +456,12 @@ def r2_writers(res, facts):
             wi.finish(a['body'], st)
         site = '%s' % facts.sig(k).replace('xalanc_1_12::', '')
         site = re_targs(site)
+        outside = [msg for node, msg in viol if 'unrecognised' in msg or 'does not recognise' in msg or 'outside the interpreted subset' in msg]
+        if outside:
+            # a shape the accounting cannot follow is neither a pass nor a violation (a correct block copy would look the same)
+            res.broken.append('C04-R2: %s at %s: %s' % (site, common.file_line(a), outside[0]))
+            r.instances += 1
+            continue
         if viol:
             seen = set()
             for node, msg in viol:
@@ -937,3 +943,12 @@ def run(res, facts, tier):
     _run_c04_prev_fixup(res, facts, tier)
     from . import c04_fixup
     c04_fixup.run_rule(res, facts, tier)
+
+
+_run_c04_prev_repr = run
+
+
+def run(res, facts, tier):
+    _run_c04_prev_repr(res, facts, tier)
+    from . import c04_repr
+    c04_repr.run_rule(res, facts, tier)
